@@ -65,7 +65,7 @@ class Execution:
 
     # ------------------------------------------------------------------ trace
     def rec(self, kind: str, **kw) -> dict:
-        ev = {"i": len(self.trace), "inv": self.inv, "kind": kind}
+        ev = {"i": len(self.trace), "inv": self.inv, "kind": kind, "aseq": self.backend.seq}
         ev.update(kw)
         self.trace.append(ev)
         return ev
